@@ -8,7 +8,7 @@ from yast import Abort, kids, strip_cv
 class Spec:
     def __init__(self):
         self.roots = []; self.opaque = []; self.retsites = []
-        self.contracts = {}; self.loops = {}; self.loop_headers = {}
+        self.contracts = {}; self.loops = {}; self.loop_headers = {}; self.loop_modes = {}
         self.pre = []; self.code = []; self.jobs = []; self.name = None; self.files = []
         self.drop = []; self.replays = {}; self.top_contracts = []; self.opaque_records = []; self.early = []; self.relies = []; self.pools = []; self.cuts = []
 
@@ -25,7 +25,9 @@ def parse_spec(path, spec=None, top=True, seen=None):
         elif cur[0] == 'contract':
             spec.contracts[cur[1]] = txt
             if top: spec.top_contracts.append(cur[1])
-        elif cur[0] == 'loop': spec.loops[(cur[1], int(cur[2]) if cur[2].isdigit() else cur[2])] = txt
+        elif cur[0] == 'loop':
+            spec.loops[(cur[1], int(cur[2]) if cur[2].isdigit() else cur[2])] = txt
+            if len(cur) > 3 and cur[3] == 'own': spec.loop_modes[(cur[1], cur[2])] = 'own'
         elif cur[0] == 'pre': spec.pre.append((ap, txt))
         elif cur[0] == 'early' and top: spec.early.append((ap, txt))
         elif cur[0] == 'code' and top: spec.code.append((ap, txt))
@@ -47,7 +49,7 @@ def parse_spec(path, spec=None, top=True, seen=None):
             if top: spec.opaque_records += rest.split()
         elif kw == 'retsites': spec.retsites += rest.split()
         elif kw == 'contract': cur = ('contract', rest.split()[0])
-        elif kw == 'loop': cur = ('loop',) + tuple(rest.split()[:2])
+        elif kw == 'loop': cur = ('loop',) + tuple(rest.split()[:3])
         elif kw == 'pre': cur = ('pre',)
         elif kw == 'early': cur = ('early',)
         elif kw == 'rely':
@@ -79,8 +81,8 @@ def parse_spec(path, spec=None, top=True, seen=None):
             spec.contracts[c] = '/* cut: unreachable under this unit\'s preconditions (the call-site obligation proves it) */\n__CPROVER_requires(0)\n__CPROVER_assigns()'
             if c not in spec.opaque: spec.opaque.append(c)
         for j in spec.jobs:
-            extra = [c for c in spec.cuts if c not in j.get('replace', '').split(',') and c != j.get('enforce')]
-            if extra: j['replace'] = ','.join([x for x in j.get('replace', '').split(',') if x] + extra)
+            extra = [c for c in spec.cuts if c not in j.get('stub', '').split(',') and c != j.get('enforce')]
+            if extra: j['stub'] = ','.join([x for x in j.get('stub', '').split(',') if x] + extra)
     return spec
 
 def driver_tu(records):
@@ -118,7 +120,7 @@ class Unit:
         self.em = y2c.Emitter(ix, ylib.LIB, sizes=sizes, retsites=spec.retsites, opaque=spec.opaque)
         em = self.em
         em.need_dinit = set(); em.need_virtual = set()
-        em.loop_contracts = dict(spec.loops); em.used_loop_contracts = set()
+        em.loop_contracts = dict(spec.loops); em.used_loop_contracts = set(); em.loop_modes = dict(spec.loop_modes)
         em.contracts = dict(spec.contracts)
         em.drop = set(spec.drop)
 
@@ -152,7 +154,7 @@ class Unit:
                 lsig, lbody = em.emit_lambda(fname, call, caps, owner)
                 protos.append(lsig + ';'); bodies.append((fname, lsig + '\n' + lbody))
         for key in self.spec.loops:
-            if key[0] in [b[0] for b in bodies] and key not in em.used_loop_contracts:
+            if key[0] in [b[0] for b in bodies] and key not in em.used_loop_contracts and key[0] not in self.spec.opaque and key[0] not in self.spec.drop:
                 raise Abort(f'loop contract {key} does not match any loop (loop ordinal changed)')
         virt = self.virtuals(protos)
         # the dispatchers may have pulled in more functions
@@ -180,7 +182,19 @@ class Unit:
                '\n'.join(dinit_protos), '\n'.join(protos), '\n'.join(dinit_defs), news]
         for ap, txt in self.spec.pre: out.append(f'/* ---- pre: {os.path.basename(ap)} ---- */\n' + txt)
         out.append(virt)
-        for nm, txt in bodies: out.append(txt)
+        stubbable = set()
+        for job in self.spec.jobs: stubbable |= {x for x in job.get('stub', '').split(',') if x}
+        self.stub_info = {}
+        if getattr(em, 'own_loops', None):
+            self.stub_info['__loops__'] = {t: dict(v, fcontract=em.contracts.get(v['fn'], '')) for t, v in em.own_loops.items()}
+        for nm, txt in bodies:
+            if nm in stubbable:
+                rt, params = em.sigs[nm]
+                sig = txt.split('\n', 1)[0]
+                self.stub_info[nm] = {'sig': sig, 'ret': rt, 'contract': em.contracts.get(nm, '')}
+                if not self.stub_info[nm]['contract']: raise Abort('stub= names a function without a contract: ' + nm)
+                out.append(f'#ifndef Y_STUB_{nm}\n{txt}\n#endif')
+            else: out.append(txt)
         for ap, txt in self.spec.code: out.append(f'/* ---- code: {os.path.basename(ap)} ---- */\n' + txt)
         self.functions = [b[0] for b in bodies]
         for job in self.spec.jobs:
